@@ -2,25 +2,61 @@ From Cmr Require Import Base Det BaseProofs TuModel GraphModel RegCertModel.
 From Cmr Require GraphicRegular.
 Local Open Scope Z_scope.
 
-(* an accepted record whose witness certifies that the 0/1 matrix (orientation 0) or its transpose (orientation 1) is graphic:
+From Cmr Require SpTU.
+
+Lemma regular_certified_regular : forall tr m n M w, regular_certified tr m n M w = true -> regular_bf m n M = true.
+Proof.
+  intros tr m n M w H. unfold regular_certified in H.
+  apply andb_true_iff in H. destruct H as [H Hc]. apply andb_true_iff in H. destruct H as [Hwf Hbin].
+  destruct w as [|G f c r|rs cs].
+  - apply SpTU.sp_binary_regular; assumption.
+  - unfold cert_holds in Hc. destruct tr.
+    + eapply GraphicRegular.graph_cert_regular_transpose; eassumption.
+    + eapply GraphicRegular.graph_cert_regular; eassumption.
+  - discriminate Hc.
+Qed.
+
+(* an accepted record that certifies its 0/1 matrix (graph witness for it or its transpose, or series-parallel reducible):
    the call succeeded, the matrix IS regular by the definition-level oracle (for every size), and a written verdict says so *)
+Theorem judge_regular_cert_sound_gen : forall rec cfg m n M rc v tr w rest,
+  regular_cert_input rec = Some ((cfg, (m, n, M), rc, v, tr, w), rest) ->
+  regular_certified tr m n M w = true ->
+  judge_regular_cert rec = 0 ->
+  rc = 0 /\ regular_bf m n M = true /\ (v = 2 -> cfg_stopflags cfg = true) /\ (v <> 2 -> v = 1).
+Proof.
+  intros rec cfg m n M rc v tr w rest Hdec Hcert HJ.
+  pose proof (regular_certified_regular tr m n M w Hcert) as HR.
+  unfold judge_regular_cert in HJ. rewrite Hdec in HJ. rewrite Hcert in HJ. cbn [negb] in HJ.
+  destruct ((rc =? 0) && (v =? 1)) eqn:Efast.
+  { apply andb_true_iff in Efast. destruct Efast as [E0 E1]. apply Z.eqb_eq in E0, E1. subst rc v.
+    split; [reflexivity|]. split; [exact HR|]. split; [intros H; discriminate H | intros _; reflexivity]. }
+  destruct (rc =? 0) eqn:Erc; cbn [negb] in HJ; [|discriminate].
+  apply Z.eqb_eq in Erc. split; [exact Erc|].
+  split; [exact HR|].
+  destruct (v =? 2) eqn:E2.
+  - apply Z.eqb_eq in E2. split; [intros _; destruct (cfg_stopflags cfg); [reflexivity|discriminate] | intros H; contradiction].
+  - apply Z.eqb_neq in E2. split; [intros H; contradiction|]. intros _.
+    destruct (v =? 1) eqn:E1; cbn [negb] in HJ; [|discriminate]. apply Z.eqb_eq in E1. exact E1.
+Qed.
+
 Theorem judge_regular_cert_sound : forall rec cfg m n M rc v tr G f c r rest,
   regular_cert_input rec = Some ((cfg, (m, n, M), rc, v, tr, WGraph G f c r), rest) ->
   wf_mat m n M = true -> is_binary M = true -> cert_holds tr m n M G f c = true ->
   judge_regular_cert rec = 0 ->
   rc = 0 /\ regular_bf m n M = true /\ (v = 2 -> cfg_stopflags cfg = true) /\ (v <> 2 -> v = 1).
 Proof.
-  intros rec cfg m n M rc v tr G f c r rest Hdec Hwf Hbin Hcert HJ.
-  unfold judge_regular_cert in HJ. rewrite Hdec in HJ. rewrite Hwf, Hbin, Hcert in HJ. cbn [andb negb] in HJ.
-  destruct (rc =? 0) eqn:Erc; cbn [negb] in HJ; [|discriminate].
-  apply Z.eqb_eq in Erc. split; [exact Erc|].
-  split.
-  { unfold cert_holds in Hcert. destruct tr.
-    - eapply GraphicRegular.graph_cert_regular_transpose; eassumption.
-    - eapply GraphicRegular.graph_cert_regular; eassumption. }
-  destruct (v =? 2) eqn:E2.
-  - apply Z.eqb_eq in E2. split; [intros _; destruct (cfg_stopflags cfg); [reflexivity|discriminate] | intros H; contradiction].
-  - apply Z.eqb_neq in E2. split; [intros H; contradiction|]. intros _.
-    destruct (v =? 1) eqn:E1; cbn [negb] in HJ; [|discriminate]. apply Z.eqb_eq in E1. exact E1.
+  intros rec cfg m n M rc v tr G f c r rest Hdec Hwf Hbin Hcert HJ. eapply judge_regular_cert_sound_gen; eauto.
+  unfold regular_certified. rewrite Hwf, Hbin, Hcert. reflexivity.
+Qed.
+
+Theorem judge_regular_cert_sound_sp : forall rec cfg m n M rc v tr rest,
+  regular_cert_input rec = Some ((cfg, (m, n, M), rc, v, tr, WNone), rest) ->
+  wf_mat m n M = true -> is_binary M = true -> SpModel.sp_greedy false m n M = true ->
+  judge_regular_cert rec = 0 ->
+  rc = 0 /\ regular_bf m n M = true /\ (v = 2 -> cfg_stopflags cfg = true) /\ (v <> 2 -> v = 1).
+Proof.
+  intros rec cfg m n M rc v tr rest Hdec Hwf Hbin HS HJ. eapply judge_regular_cert_sound_gen; eauto.
+  unfold regular_certified. rewrite Hwf, Hbin, HS. reflexivity.
 Qed.
 Print Assumptions judge_regular_cert_sound.
+Print Assumptions judge_regular_cert_sound_sp.
